@@ -33,11 +33,15 @@ var signals = func() []int {
 
 // helper: what the external command does
 type helper struct {
-	code   int // exit code, or
-	signal int // signal it kills itself with (0 = none)
+	code   int  // exit code, or
+	signal int  // signal it kills itself with (0 = none)
+	linger bool // exits 0 at once but leaves a background child holding its stdout/stderr for 3 s
 }
 
 func (h helper) shell() string {
+	if h.linger {
+		return "sleep 3 & exit 0"
+	}
 	if h.signal != 0 {
 		return fmt.Sprintf("kill -%d $$", h.signal)
 	}
@@ -212,6 +216,8 @@ func helpers() []helper {
 	for _, s := range signals {
 		hs = append(hs, helper{signal: s})
 	}
+	// a command that exits 0 while a child it started keeps the output pipes open for a while
+	hs = append(hs, helper{linger: true})
 	return hs
 }
 
